@@ -40,6 +40,7 @@ struct Mon {
 	nng_stream          *st = nullptr;
 	rp                   raw;
 	bool                 have_raw = false;
+	bool                 have_feeder = false;
 	std::vector<nng_stream *> accepted;
 	uint8_t              rbuf[16];
 	uint8_t             *bigbuf = nullptr;
@@ -212,6 +213,15 @@ actor_main(void *arg)
 	switch (A->what) {
 	case 0: // make the operation completable
 		switch (M->kind) {
+		case K_DEVICE: // not completable, but the forwarder gets a message it cannot deliver
+			if (M->have_feeder) {
+				nng_msg *m = h_msg(0x01000009u, 3);
+				if (nng_sendmsg(M->peer, m, NNG_FLAG_NONBLOCK) != 0)
+					nng_msg_free(m);
+				else
+					vr_tag("device_blocked_in_send");
+			}
+			break;
 		case K_RECV_PAIR:
 		case K_RECV_PULL:
 		case K_RECV_SUB:
@@ -355,8 +365,20 @@ exec_c02(const vcase *vc)
 		break;
 	}
 	case K_DEVICE:
-		H_OK(nng_pair1_open_raw(&M.s));
-		H_OK(nng_pair1_open_raw(&M.dev2));
+		if (vop_arg(o, 4, 0) != 0) {
+			// a one-way forwarder (raw PULL -> raw PUSH) with nothing downstream: once the feeder sends, the device's
+			// path sits in a send that cannot make progress
+			H_OK(nng_pull0_open_raw(&M.s));
+			H_OK(nng_push0_open_raw(&M.dev2));
+			H_OK(nng_push0_open(&M.peer));
+			H_OK(nng_listen(M.s, url, NULL, 0));
+			H_OK(nng_dial(M.peer, url, NULL, 0));
+			M.have_feeder = true;
+			vr_tag("device_forwarder");
+		} else {
+			H_OK(nng_pair1_open_raw(&M.s));
+			H_OK(nng_pair1_open_raw(&M.dev2));
+		}
 		break;
 	case K_STREAM_RECV:
 	case K_STREAM_SEND:
@@ -629,6 +651,8 @@ exec_c02(const vcase *vc)
 	} else if (M.kind == K_DEVICE) {
 		nng_socket_close(M.s);
 		nng_socket_close(M.dev2);
+		if (M.have_feeder)
+			nng_socket_close(M.peer);
 	} else if (M.kind != K_SLEEP) {
 		nng_socket_close(M.s);
 		if (M.kind != K_DIAL)
